@@ -234,7 +234,9 @@ impl<'a> Searcher<'a> {
 
     /// Searches directories based on configured query and outputs results to stdout.
     pub fn list_search_results(&mut self) -> io::Result<()> {
-        let current_dir = std::env::current_dir()?;
+        // only relative regexp roots start from it; a vanished working directory is no reason
+        // to refuse a search of other places
+        let current_dir = std::env::current_dir().unwrap_or_else(|_| PathBuf::from("."));
 
         if let Err(e) = self.results_writer.write_header(&mut std::io::stdout()) {
             if e.kind() == ErrorKind::BrokenPipe {
